@@ -172,7 +172,15 @@ pub fn gen(seed: u64, n: usize) -> Vec<Value> {
     (0..n)
         .map(|_| {
             let k = rng.random_range(1..=4);
-            let texts: Vec<String> = (0..k).map(|_| (0..rng.random_range(0..=8)).map(|_| pool[rng.random_range(0..pool.len())]).collect()).collect();
+            // one batch in six is pure ASCII with CR LF, one in eighty has a text of several hundred tokens (lengths and
+            // group counts that do not fit into 8 bits) next to short ones
+            let ascii = ["a", "b", " ", "\r\n", "\r\n", "\n", "<", "<p>"];
+            let pure = rng.random_bool(0.17);
+            let mut texts: Vec<String> = (0..k).map(|_| (0..rng.random_range(0..=8)).map(|_| if pure { ascii[rng.random_range(0..ascii.len())] } else { pool[rng.random_range(0..pool.len())] }).collect()).collect();
+            if rng.random_bool(0.012) {
+                let p = rng.random_range(0..texts.len());
+                texts[p] = (0..rng.random_range(260..=330)).map(|_| pool[rng.random_range(0..pool.len())]).collect();
+            }
             json!({"texts": texts, "mixed": rng.random_bool(0.3), "g": rng.random_bool(0.5), "groups": if rng.random_bool(0.5) { "bytes" } else { "code_points" },
                    "agg": if rng.random_bool(0.5) { "mean" } else { "sum" }, "prefix": rng.random_bool(0.5), "suffix": rng.random_bool(0.5)})
         })
